@@ -3,7 +3,10 @@ import DashLive.Driver.Util
 /-! Line-protocol channels of `Model/Periods.lean` (C12).
 
 * `vodperiods <defs>` → `<id>:<start>:<dur>;…|<mediaDuration>`   (`-` for an empty list)
-* `liveperiods <defs> <E_us> <F_us>` → `ok <id>:<start>:<dur>;…` | `zerodiv` | `diverges`
+* `liveperiods <defs> <E_us> <F_us>` → `ok <nl> <id>:<start>:<dur>;…` | `zerodiv` | `diverges`
+  (`nl` = the loop count, evaluated the way CPython evaluates
+  `int(F.total_seconds() // D.total_seconds())`: the exact floor of the quotient of the two
+  doubles `F/10⁶` and `D/10⁶` – e.g. `0.3 // 0.1 = 2` – and fed to `livePeriodsFrom`)
 * `mpsreq <durs> <R> <sn> <ts> <refTs> <start_us> <stored|-> n|t <value>` →
   `seg <src0> <tfdt> <seq>` | `404` | `500`
 
@@ -32,15 +35,34 @@ def vodperiods : List String → Option String
     some (showPeriods (vodPeriods ps) ++ "|" ++ toString (vodMediaDuration ps))
   | _ => none
 
+/-- a finite non-negative double as `m · 2^e` -/
+def ratParts (a : Float) : Nat × Int :=
+  let b := a.toBits.toNat
+  let ex : Nat := (b / 2 ^ 52) % 2048
+  let fr : Nat := b % 2 ^ 52
+  if ex = 0 then (fr, -1074) else (fr + 2 ^ 52, (ex : Int) - 1075)
+
+/-- CPython's `a // b` for doubles `a ≥ 0`, `b > 0` with a quotient below 2⁵³: the exact floor
+of the quotient of the two doubles -/
+def floatFloorDiv (a b : Float) : Nat :=
+  let (m1, e1) := ratParts a
+  let (m2, e2) := ratParts b
+  if e1 ≥ e2 then (m1 * 2 ^ (e1 - e2).toNat) / m2 else m1 / (m2 * 2 ^ (e2 - e1).toNat)
+
+/-- `int(F.total_seconds() // D.total_seconds())` -/
+def floatLoopCount (F D : Nat) : Nat :=
+  floatFloorDiv (Float.ofNat F / 1000000.0) (Float.ofNat D / 1000000.0)
+
 def liveperiods : List String → Option String
   | [defs, e, f] => do
     let ps ← parseDefs defs
     let E ← parseNat e
     let F ← parseNat f
-    match livePeriods ps E F with
-    | .ok l => some ("ok " ++ showPeriods l)
-    | .zeroDivision => some "zerodiv"
-    | .diverges => some "diverges"
+    if totalDuration ps = 0 then some "zerodiv" else
+    let nl := floatLoopCount F (totalDuration ps)
+    match livePeriodsFrom ps E F nl with
+    | some l => some (s!"ok {nl} " ++ showPeriods l)
+    | none => some "diverges"
   | _ => none
 
 /-- `int(math.floor(td.total_seconds() * timescale))` for a non-negative `td` of `us` µs -/
